@@ -22,7 +22,6 @@ ASSUMPTIONS = {
     "A-SOLVER": "z3 5.1 / cvc5 1.4 'unsat' answers are trusted; every 'sat' is reported with its model",
     "A-ENGINE": "the VC generator (pyvc) is sound for the stated Python subset; mitigated by canaries and mutation self-tests",
     "A-T": "tree invariant T (parent/root links, disjoint subtrees, per-node history series are distinct objects) holds on entry of every function under contract; established by the constructors/setup contracts",
-    "A-DATA-NONE": "update(date, data, inow) is verified for data=None (the path every caller in bt uses)",
     "A-TIME": "dates are integers; DateOffset arithmetic is additive on them",
     "A-DET": "user callables and third-party numerics are deterministic functions of their arguments",
     "A-DEEPCOPY": "copy.deepcopy returns a fresh, isomorphic, disjoint object graph",
@@ -192,8 +191,14 @@ def finish(pid, ev, refuted, unknown, undecided, errors, replay_fn=None, known=N
             code = 2
     ev["coverage"]["errors"] = errors[:10]
     ev["coverage"]["verdict"] = {0: "held", 1: "violation", 2: "undecided", 3: "checker-error"}[code]
-    os.makedirs(os.path.join(VERIF, "evidence"), exist_ok=True)
-    with open(os.path.join(VERIF, "evidence", "%s.json" % pid), "w") as f:
+    # evidence describes /repo itself: runs against another tree (BT_REPO, used to test seeded changes) never overwrite it
+    evdir = os.path.join(VERIF, "evidence")
+    other = os.environ.get("BT_REPO")
+    if other and os.path.realpath(other) != os.path.realpath("/repo"):
+        evdir = os.path.join(VERIF, "out", "evidence-other-tree")
+        ev["coverage"]["tree"] = other
+    os.makedirs(evdir, exist_ok=True)
+    with open(os.path.join(evdir, "%s.json" % pid), "w") as f:
         json.dump(ev, f, indent=1, default=str)
     for ln in lines:
         print(ln)
